@@ -140,6 +140,21 @@ add('C02', 'model_checking',
     'Frozen snapshot of the documented API names; reference model.',
     'DESIGN.md 3/C02')
 
+add('C20', 'exploration',
+    'bounded-exhaustive enumeration of carts (all line sequences <=2/3 over 29 line kinds, <=3/4 over the 20 non-PNG kinds) '
+    'loaded from a real directory, against an independent splice of the same files',
+    'Every include kind (.lua with/without final newline, subdirectory, whole .p8/.p8.png, every tab selector 0..tabs+1, '
+    'missing targets, included carts containing #include) at every position of short carts.',
+    'Splice = byte concatenation; one extra newline tolerated after .p8.png code reaching the end (C04).',
+    'DESIGN.md 5/C20')
+
+add('C12', 'exploration',
+    'bounded-exhaustive enumeration of path strings (<=3/5 atoms over 12 atoms) x 5 load-path settings x 3 cart locations '
+    'through the public entries on a real directory tree with canary files, builtins.open/io.open traced in-process',
+    'Every opened path inside the sandbox must lie under a permitted root for every enumerated string and configuration.',
+    'Only opens inside the sandbox tree are judged; isfile probes are not.',
+    'DESIGN.md 5/C12')
+
 PENDING = {
 }
 
